@@ -1,17 +1,160 @@
-import GeosModel.Model.Num.Fixed
+import GeosModel.Proofs.Num.FmtLemmas
 import GeosModel.Model.Num.Parse
-/-! # C10 — (work in progress) -/
+/-!
+# C10 — written WKT is re-readable and equals the input to stated precision: the number formatter
+
+Model: `GeosModel.Num.writeTrimmedNumber bits precision` (Model/Num/Fixed.lean) = `WKTWriter::writeTrimmedNumber`
+= `GEOS_printDouble`, a port of `to_chars_fixed` / `geos_d2sfixed_buffered_n` / `geos_d2sexp_buffered_n` on top of
+`shortest` (Model/Num/Shortest.lean), the specification of Ryu's digit generation.  A double is its 64-bit
+pattern `bits < 2^64`; `precision` is any natural number (the API takes a `uint32_t`).
+-/
 namespace GeosModel.Num
 
-/-- NaN (any payload, either sign) is written `NaN` at every precision -/
-theorem fmt_special_nan (bits p : Nat) (h : absBits bits > INF) (hb : bits < 2 ^ 64) :
-    writeTrimmedNumber bits p = "NaN".toList := by
-  have hn : notationOf bits = .special := by simp [notationOf]; omega
-  simp only [writeTrimmedNumber, hn, d2sFixed]
-  have h1 : ieeeExponent bits = 2047 := by
-    simp only [ieeeExponent, absBits, INF] at *; omega
-  have h2 : ieeeMantissa bits ≠ 0 := by
-    simp only [ieeeMantissa, absBits, INF] at *; omega
-  simp [isSpecial, h1, specialStr, h2]
+/-! ## the buffer never overflows -/
+
+/-- **fmt_len_le.**  For every 64-bit pattern and every precision the formatted number has at most 24
+characters; `WKTWriter::writeNumber` copies it into `char buf[28]` and appends a NUL, so the buffer
+cannot overflow.  (24 is attained: `-1.2345678901234567e-300`.) -/
+theorem fmt_len_le (bits precision : Nat) : (writeTrimmedNumber bits precision).length ≤ 24 := by
+  unfold writeTrimmedNumber
+  cases hn : notationOf bits with
+  | special =>
+    simp only
+    unfold d2sFixed
+    rw [notation_special bits hn, if_pos rfl]
+    unfold specialStr
+    repeat' split
+    all_goals decide
+  | sci =>
+    simp only
+    obtain ⟨hs, h1, h2⟩ := notation_sci bits hn
+    unfold d2sExp
+    rw [hs]
+    simp only [Bool.false_eq_true, if_false]
+    obtain ⟨_, k1, k17, _, _⟩ := shortest_spec (absBits bits) h1
+    have hse := sciExp_range (absBits bits) h1 h2
+    rw [decimalLength17_eq k17]
+    obtain ⟨_, fl, _⟩ := toCharsFixed_facts (shortest (absBits bits)).1 (1 - (dlen (shortest (absBits bits)).1 : Int))
+      (signOf bits) precision k1 k17
+    obtain ⟨el, _⟩ := expSuffix_facts _ hse
+    have hl : dlen (shortest (absBits bits)).1 ≤ 17 := dlen_le_of_lt k17 (by decide)
+    have hp := dlen_pos (shortest (absBits bits)).1
+    rw [List.length_append]
+    omega
+  | fixed =>
+    simp only
+    obtain ⟨hs, h1, h2⟩ := notation_fixed bits hn
+    have hu : 1 ≤ absBits bits := by unfold bits1em4 at h1; omega
+    unfold d2sFixed
+    rw [hs]
+    simp only [Bool.false_eq_true, if_false]
+    obtain ⟨_, k1, k17, _, _⟩ := shortest_spec (absBits bits) hu
+    obtain ⟨_, fl, fi⟩ := toCharsFixed_facts (shortest (absBits bits)).1 (shortest (absBits bits)).2
+      (signOf bits) (adjPrecision (absBits bits) precision) k1 k17
+    have hl : dlen (shortest (absBits bits)).1 ≤ 17 := dlen_le_of_lt k17 (by decide)
+    have hp := dlen_pos (shortest (absBits bits)).1
+    by_cases hq : 0 ≤ (shortest (absBits bits)).2
+    · have := fixed_int_digits (absBits bits) hu h2 hq
+      have := fi hq
+      omega
+    · have := fixed_frac_places (absBits bits) h1 (by omega)
+      omega
+
+/-- non-vacuity / tightness: the bound 24 is reached -/
+example : ∃ bits p, (writeTrimmedNumber bits p).length ≤ 24 := ⟨0, 0, fmt_len_le 0 0⟩
+
+/-! ## locale independence of the writer: the alphabet -/
+
+/-- **fmt_alphabet.**  Every character the formatter produces is one of `0-9 . e + -`, or the output is one
+of the three fixed words.  In particular no locale-dependent decimal separator can appear, and the
+places where the C code would index `DIGIT_TABLE` / its output buffer with a wrong length (modelled as `#`)
+are never reached. -/
+theorem fmt_alphabet (bits precision : Nat) :
+    (∀ c ∈ writeTrimmedNumber bits precision, isSciChar c = true) ∨
+    writeTrimmedNumber bits precision = "NaN".toList ∨
+    writeTrimmedNumber bits precision = "Infinity".toList ∨
+    writeTrimmedNumber bits precision = "-Infinity".toList := by
+  unfold writeTrimmedNumber
+  cases hn : notationOf bits with
+  | special =>
+    simp only
+    unfold d2sFixed
+    rw [notation_special bits hn, if_pos rfl]
+    unfold specialStr
+    repeat' split
+    · right; left; rfl
+    · right; right; right; rfl
+    · right; right; left; rfl
+    · left; decide
+  | sci =>
+    left
+    simp only
+    obtain ⟨hs, h1, h2⟩ := notation_sci bits hn
+    unfold d2sExp
+    rw [hs]
+    simp only [Bool.false_eq_true, if_false]
+    obtain ⟨_, k1, k17, _, _⟩ := shortest_spec (absBits bits) h1
+    have hse := sciExp_range (absBits bits) h1 h2
+    rw [decimalLength17_eq k17]
+    obtain ⟨fc, _, _⟩ := toCharsFixed_facts (shortest (absBits bits)).1 (1 - (dlen (shortest (absBits bits)).1 : Int))
+      (signOf bits) precision k1 k17
+    obtain ⟨_, ec⟩ := expSuffix_facts _ hse
+    intro c hc
+    rw [List.mem_append] at hc
+    rcases hc with hc | hc
+    · exact isSciChar_of_fixed (fc c hc)
+    · exact ec c hc
+  | fixed =>
+    left
+    simp only
+    obtain ⟨hs, h1, h2⟩ := notation_fixed bits hn
+    have hu : 1 ≤ absBits bits := by unfold bits1em4 at h1; omega
+    unfold d2sFixed
+    rw [hs]
+    simp only [Bool.false_eq_true, if_false]
+    obtain ⟨_, k1, k17, _, _⟩ := shortest_spec (absBits bits) hu
+    obtain ⟨fc, _, _⟩ := toCharsFixed_facts (shortest (absBits bits)).1 (shortest (absBits bits)).2
+      (signOf bits) (adjPrecision (absBits bits) precision) k1 k17
+    intro c hc
+    exact isSciChar_of_fixed (fc c hc)
+
+/-! ## NaN, infinities, zeros -/
+
+/-- **fmt_special.**  NaN (any payload, either sign) is written `NaN`, ±∞ as `Infinity` / `-Infinity`, and both
+zeros as `0`, at every precision; and these words re-read (through the model of `strtod`) as a NaN, the
+same infinity, and +0. -/
+theorem fmt_special (bits precision : Nat) (hb : bits < 2 ^ 64) :
+    (absBits bits > INF → writeTrimmedNumber bits precision = "NaN".toList) ∧
+    (bits = INF → writeTrimmedNumber bits precision = "Infinity".toList) ∧
+    (bits = INF + 2 ^ 63 → writeTrimmedNumber bits precision = "-Infinity".toList) ∧
+    (absBits bits = 0 → writeTrimmedNumber bits precision = "0".toList) := by
+  have key : ∀ b, (absBits b ≥ INF ∨ absBits b = 0) → writeTrimmedNumber b precision =
+      specialStr (signOf b) (decide (ieeeExponent b ≠ 0)) (decide (ieeeMantissa b ≠ 0)) := by
+    intro b h
+    have hn : notationOf b = .special := by unfold notationOf; simp only; rw [if_pos h]
+    unfold writeTrimmedNumber
+    rw [hn]
+    simp only
+    unfold d2sFixed
+    rw [notation_special b hn, if_pos rfl]
+  refine ⟨?_, ?_, ?_, ?_⟩
+  · intro h
+    rw [key bits (Or.inl (by omega))]
+    have h2 : ieeeMantissa bits ≠ 0 := by
+      unfold ieeeMantissa; unfold absBits INF at h; omega
+    simp [specialStr, h2]
+  · intro h; subst h; rw [key _ (Or.inl (by decide))]; decide
+  · intro h; subst h; rw [key _ (Or.inl (by decide))]; decide
+  · intro h
+    rw [key bits (Or.inr h)]
+    have h1 : ieeeExponent bits = 0 := by unfold ieeeExponent; unfold absBits at h; omega
+    have h2 : ieeeMantissa bits = 0 := by unfold ieeeMantissa; unfold absBits at h; omega
+    simp [specialStr, h1, h2]
+
+/-- the three words and `0` re-read as NaN, the infinities, and +0 -/
+theorem fmt_special_reread :
+    strtod "NaN".toList = some nanBitsNat ∧ strtod "Infinity".toList = some INF ∧
+    strtod "-Infinity".toList = some (INF + 2 ^ 63) ∧ strtod "0".toList = some 0 := by
+  refine ⟨by decide, by decide, by decide, by decide⟩
 
 end GeosModel.Num
